@@ -53,6 +53,37 @@ static int do_fit(struct fit *f, const double *X, const double *Y, int n, int p,
 }
 static void free_fit(struct fit *f) { DelMLRModel(&f->m); DelMatrix(&f->mx); DelMatrix(&f->my); }
 
+
+/* ---------------------------------------------------------------- reused outputs
+ * MLRPredictY must give the same result whatever its OUTPUT objects held before the call: empty (initMatrix), the result of an
+ * earlier call of the same shape, or matrices of another shape.  predicted_y and predicted_residuals are documented and
+ * implemented as overwritten outputs (every cell is assigned), single-threaded: compared bit for bit (NaN == NaN, -0 == +0)
+ * with the result obtained with fresh outputs.  r2y and sdep are filled with DVectorAppend (the library's convention for
+ * vector outputs, MLR() itself relies on it): a reused vector is NOT expected to be reset, only its trailing ny entries are
+ * compared, and both "appended" and "reset and refilled" are accepted as its size. */
+static int m_same(const matrix *a, const matrix *b) {
+  if (a->row != b->row || a->col != b->col) return 0;
+  for (size_t i = 0; i < a->row; i++) for (size_t j = 0; j < a->col; j++) { double x = a->data[i][j], y = b->data[i][j]; if (!(x == y || (x != x && y != y))) return 0; }
+  return 1;
+}
+static matrix *m_dup(const matrix *a) { matrix *m; NewMatrix(&m, a->row, a->col); for (size_t i = 0; i < a->row; i++) memcpy(m->data[i], a->data[i], sizeof(double) * a->col); return m; }
+static matrix *m_junk(int r, int c) { matrix *m; NewMatrix(&m, (size_t)r, (size_t)c); for (int i = 0; i < r; i++) for (int j = 0; j < c; j++) m->data[i][j] = 1e3 + 7.0 * i - 3.0 * j + 0.25; return m; }
+static matrix *m_toprows(const matrix *a, int r) { matrix *m; NewMatrix(&m, (size_t)r, a->col); for (int i = 0; i < r; i++) memcpy(m->data[i], a->data[i], sizeof(double) * a->col); return m; }
+static int v_tail_same(const dvector *v, size_t before, const double *want, int k) {
+  if (!(v->size == (size_t)k || v->size == before + (size_t)k)) return 0;
+  for (int i = 0; i < k; i++) { double x = v->data[v->size - (size_t)k + (size_t)i], y = want[i]; if (!(x == y || (x != x && y != y))) return 0; }
+  return 1;
+}
+/* one call into the given (used) outputs, judged against the fresh results */
+static void reuse_call(const char *cls, const char *how, const char *ctx, struct fit *F, matrix *oy, matrix *ores, dvector *o2, dvector *os, const matrix *wy, const matrix *wres, const double *w2, const double *ws, int ny) {
+  size_t b2 = o2->size, bs = os->size; char key[96];
+  MLRPredictY(F->mx, F->my, F->m, oy, ores, o2, os); vx_transition(1);
+  int oky = m_same(oy, wy), okr = m_same(ores, wres), okv = v_tail_same(o2, b2, w2, ny) && v_tail_same(os, bs, ws, ny);
+  snprintf(key, sizeof key, "reuse|MLRPredictY|%s", cls);
+  vx_check(oky && okr && okv, key, "%s: MLRPredictY into outputs that %s: %s differs from the result with fresh outputs (predicted_y %zux%zu, fresh %zux%zu, max difference %g; residuals %zux%zu, max difference %g; r2y %zu and sdep %zu entries, %zu and %zu before the call)",
+           ctx, how, !oky ? "predicted_y" : !okr ? "predicted_residuals" : "the trailing r2y/sdep entries", oky ? wy->row : oy->row, oky ? wy->col : oy->col, wy->row, wy->col, oky ? 0.0 : hm_maxdiff(oy, wy), ores->row, ores->col, okr ? 0.0 : hm_maxdiff(ores, wres), o2->size, os->size, b2, bs);
+}
+
 static void body(void) {
   int si = vx_choose("shape", 19);
   int kap = vx_choose("kappa", 3);
@@ -181,6 +212,35 @@ static void body(void) {
   vx_check(pshape && w_p[1] <= 1, KEY("predict", "MLRPredictY", "unseen"), "prediction of an unseen object differs from b0 + z b by %g rounding allowances, or wrong shape %zux%zu (n=%d p=%d ny=%d)", w_p[1], pZ->row, pZ->col, n, p, ny);
   if (!pshape) { vx_outcome(3); return; }
 
+  /* ---- reused outputs: all four outputs of MLRPredictY(training X, training Y) a second time into the same objects, then into
+   * objects that held the result for the first n-1 objects (rows differ), hand-filled n x (ny+1) matrices (columns differ; no
+   * call with this model produces them) and (n+2) x (ny+3) matrices (both differ) */
+  { char ctx[96]; snprintf(ctx, sizeof ctx, "n=%d p=%d ny=%d", n, p, ny);
+    matrix *fy, *fr, *wy, *wr; dvector *f2, *fs; double w2[NYMAX], ws[NYMAX]; initMatrix(&fy); initMatrix(&fr); initDVector(&f2); initDVector(&fs);
+    MLRPredictY(F.mx, F.my, m, fy, fr, f2, fs); vx_transition(1);
+    int fresh_ok = m_same(fy, pX) && (int)fr->row == n && (int)fr->col == ny && (int)f2->size == ny && (int)fs->size == ny;
+    vx_check(fresh_ok, KEY("predict", "MLRPredictY", "train,with-my"), "prediction of the training objects with the known responses passed differs from the one without (or residuals %zux%zu, r2y %zu, sdep %zu entries; n=%d ny=%d)", fr->row, fr->col, f2->size, fs->size, n, ny);
+    if (fresh_ok) {
+      wy = m_dup(fy); wr = m_dup(fr); for (int r = 0; r < ny; r++) { w2[r] = f2->data[r]; ws[r] = fs->data[r]; }
+      reuse_call("same-shape", "hold an earlier result of the same shape", ctx, &F, fy, fr, f2, fs, wy, wr, w2, ws, ny);
+      /* rows differ */
+      { struct fit S = F; S.mx = m_toprows(F.mx, n - 1); S.my = m_toprows(F.my, n - 1);
+        matrix *oy, *ores; dvector *o2, *os; initMatrix(&oy); initMatrix(&ores); initDVector(&o2); initDVector(&os);
+        MLRPredictY(S.mx, S.my, m, oy, ores, o2, os);
+        reuse_call("one-dim-differs", "held the result for another number of objects (same number of responses)", ctx, &F, oy, ores, o2, os, wy, wr, w2, ws, ny);
+        DelMatrix(&S.mx); DelMatrix(&S.my); DelMatrix(&oy); DelMatrix(&ores); DelDVector(&o2); DelDVector(&os); }
+      /* columns differ */
+      { matrix *oy = m_junk(n, ny + 1), *ores = m_junk(n, ny + 1); dvector *o2 = hv_new(ny + 1, NULL), *os = hv_new(ny + 1, NULL);
+        reuse_call("one-dim-differs", "held matrices with the same number of objects and another number of columns", ctx, &F, oy, ores, o2, os, wy, wr, w2, ws, ny);
+        DelMatrix(&oy); DelMatrix(&ores); DelDVector(&o2); DelDVector(&os); }
+      /* both differ */
+      { matrix *oy = m_junk(n + 2, ny + 3), *ores = m_junk(n + 2, ny + 3); dvector *o2 = hv_new(ny + 3, NULL), *os = hv_new(ny + 3, NULL);
+        reuse_call("both-dims-differ", "held matrices with other numbers of rows and columns", ctx, &F, oy, ores, o2, os, wy, wr, w2, ws, ny);
+        DelMatrix(&oy); DelMatrix(&ores); DelDVector(&o2); DelDVector(&os); }
+      DelMatrix(&wy); DelMatrix(&wr);
+    }
+    DelMatrix(&fy); DelMatrix(&fr); DelDVector(&f2); DelDVector(&fs); }
+
   /* ---- "scaling or shifting a response scales/shifts its coefficients and predictions" */
   for (int f = 0; f < 4; f++) {
     double c = AFF[f][0], d0 = AFF[f][1];
@@ -243,7 +303,8 @@ int main(int argc, char **argv) {
               "column modifiers {offsets +-(1+0.5j), none, 1e3 offset + x50 column, x1e-3}; per execution: 8 unseen objects, response maps (-2,0),(1,5),(0.01,-3),(1e3,7), predictor re-mixings X->XA with kappa(A) in {1,3,10,10}");
   vx_describe("oracle", "allowance tol_rel = 1e3*eps*(n+p+1)*kappa_d^2 (kappa_d = 2-norm condition number of [1 X] by long-double Jacobi SVD; normal equations + explicit inverse), judged while tol_rel <= 2e-3: "
               "|D_j' residuals| <= tol_rel |D_j| (|y| + |D||b|); |b - b_QR| and (noise 0) |b - b_generating| <= tol_rel (|b| + |y|/|D|); recalculated_y, residuals, MLRPredictY vs b0 + x b at rounding level; "
-              "r2y_model / MLRRegressionStatistics = 1 - RSS/TSS, in [0,1]; sdec = sqrt(RSS/n); response-map and re-mixing equivariance within the two fits' forward-error allowances");
+              "r2y_model / MLRRegressionStatistics = 1 - RSS/TSS, in [0,1]; sdec = sqrt(RSS/n); response-map and re-mixing equivariance within the two fits' forward-error allowances; "
+              "MLRPredictY into reused outputs (same shape, one or both dimensions different) = result with fresh outputs, bit for bit (r2y/sdep: trailing entries, append convention)");
   vx_set_shard_depth(3);
   vx_expect_outcomes(500);
   return vx_main(argc, argv, "C07", body);
